@@ -20,6 +20,9 @@ Sub-checks / keys:
   C06:dispatch_value:<Type>    and the value through the base equals the reference
   C06:raises:<where>           hierArc raised on a valid input
 """
+import os
+for _v in ("OMP_NUM_THREADS", "OPENBLAS_NUM_THREADS", "MKL_NUM_THREADS"):
+    os.environ.setdefault(_v, "1")   # tiny matrices: threaded BLAS only adds latency (4x slower here) and nondeterminism
 import sys, os, json, time, traceback, inspect, math
 sys.path.insert(0, os.path.dirname(os.path.abspath(__file__)))
 from common import Recorder, parse_args, jsonable, unjson, fscalar, pd, TYPES, KIN_TYPES, lens_kwargs
